@@ -21,6 +21,7 @@ ndim_max = 3
 # TODO: With python 3.10, use strict=True zip kwarg
 sparse_array_imath = """
 def __i{name}__(self, other):
+    self._check_writable()
     if other.__class__ is SparseArray:
         rows = self.rows
         other_rows = other.rows
@@ -555,7 +556,13 @@ class SparseArray:
         new.rows = rows
         return new
     
+    def _check_writable(self):
+        for i in self.rows:
+            if getattr(i, 'read_only', False): 
+                raise ValueError('assignment destination is read-only')
+    
     def clear(self):
+        self._check_writable()
         for i in self.rows: i.set.clear()
     
     def copy(self):
@@ -605,6 +612,7 @@ class SparseArray:
         return SparseArray(rows)
     
     def copy_like(self, other):
+        self._check_writable()
         rows = self.rows
         for i, j in zip(rows, other.rows):
             i.copy_like(j)
@@ -683,6 +691,7 @@ class SparseArray:
         return False
     
     def remove_negatives(self):
+        self._check_writable()
         for i in self.rows: i.remove_negatives()
     
     def shares_data_with(self, other):
@@ -713,6 +722,7 @@ class SparseArray:
         return arr
         
     def from_flat_array(self, arr):
+        self._check_writable()
         rows = self.rows
         vector_size = self.vector_size
         dtype = self.dtype
@@ -823,6 +833,7 @@ class SparseArray:
                 return value
     
     def __setitem__(self, index, value):
+        self._check_writable()
         rows = self.rows
         value, vd, _ = reduce_ndim(value)
         if index.__class__ is tuple:
@@ -1433,6 +1444,7 @@ class SparseVector:
             raise TypeError(f'cannot convert {type(obj).__name__} object to a sparse array')
     
     def mix_from(self, others):
+        if self.read_only: raise ValueError('assignment destination is read-only')
         if others: 
             other_dcts = [i.dct for i in others]
             dct = self.dct
@@ -1529,6 +1541,7 @@ class SparseVector:
             return dct.get(index, 0.)
     
     def remove_negatives(self):
+        if self.read_only: raise ValueError('assignment destination is read-only')
         dct = self.dct
         for i in tuple(dct): 
             if dct[i] < 0.: del dct[i]
@@ -1627,6 +1640,7 @@ class SparseVector:
         return SparseVector.from_dict(self.dct.copy(), self.size)
     
     def copy_like(self, other):
+        if self.read_only: raise ValueError('assignment destination is read-only')
         dct = self.dct
         if dct is other.dct: return
         dct.clear()
